@@ -1541,7 +1541,7 @@ pub fn c04_k2_spaces(tier: Tier) -> Vec<Space> {
         });
     }
     {
-        let n = if tier == Tier::Quick { 1_500 } else { 50_000 };
+        let n = if tier == Tier::Quick { 5_000 } else { 200_000 };
         spaces.push(Space {
             name: "K2.mixed.random",
             size: n,
@@ -1590,7 +1590,7 @@ pub fn c01_spaces(tier: Tier) -> Vec<Space> {
     for len in 1..=maxlen {
         size += a.pow(len) * len as u64;
     }
-    let seeds: u64 = if tier == Tier::Quick { 2 } else { 4 };
+    let seeds: u64 = if tier == Tier::Quick { 4 } else { 12 };
     let mut spaces = Vec::new();
     {
         let (cfg, alpha) = (cfg.clone(), alpha.clone());
@@ -1624,7 +1624,7 @@ pub fn c01_spaces(tier: Tier) -> Vec<Space> {
         });
     }
     {
-        let n = if tier == Tier::Quick { 1_500 } else { 60_000 };
+        let n = if tier == Tier::Quick { 6_000 } else { 200_000 };
         let full = crate::alphabet::full();
         spaces.push(Space {
             name: "L.seq.random",
@@ -1697,7 +1697,7 @@ pub fn c02_spaces(tier: Tier) -> Vec<Space> {
         if tier == Tier::Thorough {
             st.extend(crate::props::c02_big_streams());
         }
-        let n = if tier == Tier::Quick { 2_500 } else { 80_000 };
+        let n = if tier == Tier::Quick { 8_000 } else { 300_000 };
         spaces.push(Space {
             name: "L.cut.random",
             size: n,
@@ -1729,7 +1729,7 @@ pub fn c02_spaces(tier: Tier) -> Vec<Space> {
 
 pub fn c03_spaces(tier: Tier) -> Vec<Space> {
     // several workers share the one service object while routing among confusable names
-    let n = if tier == Tier::Quick { 600 } else { 20_000 };
+    let n = if tier == Tier::Quick { 2_000 } else { 60_000 };
     vec![Space {
         name: "L.route.shared-service",
         size: n,
@@ -1784,7 +1784,7 @@ pub fn c03_spaces(tier: Tier) -> Vec<Space> {
 pub fn c06_spaces(tier: Tier) -> Vec<Space> {
     // a faulty connection beside a healthy one, and a healthy one afterwards
     let cfg = SvcCfg::basic();
-    let n = if tier == Tier::Quick { 2_500 } else { 80_000 };
+    let n = if tier == Tier::Quick { 8_000 } else { 300_000 };
     let victims = crate::props::c06_victims_pub(&cfg);
     vec![Space {
         name: "L.malformed.neighbours",
@@ -1875,7 +1875,7 @@ pub fn c13_plan(tier: Tier) -> Plan {
     let cfg = SvcCfg::basic();
     let mut spaces = Vec::new();
     let nmax: u64 = if tier == Tier::Quick { 8 } else { 64 };
-    let n = if tier == Tier::Quick { 6_000 } else { 150_000 };
+    let n = if tier == Tier::Quick { 20_000 } else { 600_000 };
     {
         let cfg = cfg.clone();
         spaces.push(Space {
@@ -1991,7 +1991,7 @@ pub fn c14_spaces(tier: Tier) -> Vec<Space> {
     use crate::alphabet::{Base, Flags, Kind};
     let cfg = SvcCfg::basic();
     let pools = [(1usize, 1usize), (1, 2), (1, 3), (2, 2), (2, 3), (1, 4), (3, 4), (3, 2)];
-    let seeds: u64 = if tier == Tier::Quick { 8 } else { 150 };
+    let seeds: u64 = if tier == Tier::Quick { 20 } else { 400 };
     let nconns = [2usize, 3, 4, 5, 6];
     let size = pools.len() as u64 * nconns.len() as u64 * 4 * seeds;
     vec![Space {
@@ -2071,7 +2071,7 @@ pub fn c15_plan(tier: Tier) -> Plan {
         let idle = [0u64, 1, 2];
         let stopm = 5u64; // absent, present-never-set, set before, set during, set after
         let pools = [(1usize, 1usize), (1, 4), (2, 2), (3, 4)];
-        let seeds: u64 = if tier == Tier::Quick { 3 } else { 40 };
+        let seeds: u64 = if tier == Tier::Quick { 8 } else { 100 };
         let size = hist * idle.len() as u64 * stopm * pools.len() as u64 * 2 * seeds;
         spaces.push(Space {
             name: "L.life.systematic",
@@ -2096,7 +2096,7 @@ pub fn c15_plan(tier: Tier) -> Plan {
     // the same with signals interrupting select (fault-injecting configuration)
     {
         let cfg = cfg.clone();
-        let n = if tier == Tier::Quick { 1_500 } else { 50_000 };
+        let n = if tier == Tier::Quick { 5_000 } else { 150_000 };
         spaces.push(Space {
             name: "L.life.signals",
             size: n,
